@@ -245,7 +245,7 @@ func (c *CTCP) addDefaultHandlers() {
 
 // handleCTCPPing replies with a ping and whatever was originally requested.
 func handleCTCPPing(client *Client, ctcp CTCPEvent) {
-	if ctcp.Reply {
+	if ctcp.Reply || ctcp.Source == nil {
 		return
 	}
 	client.Cmd.SendCTCPReply(ctcp.Source.ID(), CTCP_PING, ctcp.Text)
@@ -253,7 +253,7 @@ func handleCTCPPing(client *Client, ctcp CTCPEvent) {
 
 // handleCTCPPong replies with a pong.
 func handleCTCPPong(client *Client, ctcp CTCPEvent) {
-	if ctcp.Reply {
+	if ctcp.Reply || ctcp.Source == nil {
 		return
 	}
 	client.Cmd.SendCTCPReply(ctcp.Source.ID(), CTCP_PONG, "")
@@ -263,7 +263,7 @@ func handleCTCPPong(client *Client, ctcp CTCPEvent) {
 // as the os type (darwin, linux, windows, etc) and architecture type (x86,
 // arm, etc).
 func handleCTCPVersion(client *Client, ctcp CTCPEvent) {
-	if ctcp.Reply {
+	if ctcp.Reply || ctcp.Source == nil {
 		return
 	}
 
@@ -281,7 +281,7 @@ func handleCTCPVersion(client *Client, ctcp CTCPEvent) {
 
 // handleCTCPSource replies with the public git location of this library.
 func handleCTCPSource(client *Client, ctcp CTCPEvent) {
-	if ctcp.Reply {
+	if ctcp.Reply || ctcp.Source == nil {
 		return
 	}
 
@@ -291,7 +291,7 @@ func handleCTCPSource(client *Client, ctcp CTCPEvent) {
 // handleCTCPTime replies with a RFC 1123 (Z) formatted version of Go's
 // local time.
 func handleCTCPTime(client *Client, ctcp CTCPEvent) {
-	if ctcp.Reply {
+	if ctcp.Reply || ctcp.Source == nil {
 		return
 	}
 
@@ -301,7 +301,7 @@ func handleCTCPTime(client *Client, ctcp CTCPEvent) {
 // handleCTCPFinger replies with the realname and idle time of the user. This
 // is obsoleted by improvements to the IRC protocol, however still supported.
 func handleCTCPFinger(client *Client, ctcp CTCPEvent) {
-	if ctcp.Reply {
+	if ctcp.Reply || ctcp.Source == nil {
 		return
 	}
 
